@@ -197,6 +197,21 @@ def handle (toks : List String) : Option String :=
       let (y, w, wd) := pyIsocalendar c cy d
       some (showInts [y, w, wd])
     | _ => none
+  | "wy.rt" :: rest => do
+    -- round trip of one date: … calYear days → weekYear week dayOfWeek, then get_weeks_in_week_year(weekYear) and
+    -- get_local_date(weekYear, week, dayOfWeek) with their validation (week-years minYear-1 / maxYear+1 are accepted
+    -- when they overlap the calendar's day range)
+    let (r, t, c, args) ← parseCtx rest
+    match args with
+    | [cy, d] =>
+      if !(t.covers [cy - 1, cy, cy + 1]) then none else
+      let wy := weekYear r c cy d
+      if !(t.covers (needYears r c [wy])) then none else
+      let w := weekOf r c cy d
+      let yo := fun d => match t.yearOf d with | some y => y | none => wy
+      some (" ".intercalate [toString wy, toString w, toString (dayOfWeek d), showR toString (weeksInChecked r c wy),
+        showR toString (localDate r c yo wy w (dayOfWeek d))])
+    | _ => none
   | "wy.sw" :: rest => do
     -- sweep: … d0 k → (weekYear week dayOfWeek) for the k consecutive days from d0; the calendar year of each day
     -- is looked up in the supplied rows
